@@ -374,11 +374,22 @@ func runAA(k aaCase) (out aaOutcome) {
 			return
 		}
 		v := verifier.NewVerifier(&cms.GenericCertPool{})
+		// WithAAChallenge "sets" the challenge on the verifier it is called on and returns it: both ways of using it -
+		// chained, or as a statement on an existing verifier (also after an earlier challenge) - bind the challenge
 		switch k.Offline {
 		case "same":
-			v, _ = v.WithAAChallenge(wire)
+			if k.Seed%2 == 0 {
+				_, _ = v.WithAAChallenge(otherChallenge)
+				_, _ = v.WithAAChallenge(wire)
+			} else {
+				v, _ = v.WithAAChallenge(wire)
+			}
 		case "different":
-			v, _ = v.WithAAChallenge(otherChallenge)
+			if k.Seed%2 == 0 {
+				_, _ = v.WithAAChallenge(otherChallenge)
+			} else {
+				v, _ = v.WithAAChallenge(otherChallenge)
+			}
 		}
 		func() {
 			defer func() {
@@ -509,6 +520,8 @@ func C07(c *core.Ctx) {
 			}
 			keys = append(keys, perso.AASpec{Type: "ecdsa", ParamID: id, Hash: ecHash(id), SigFormat: f, Named: (i+fi)%3 == 0})
 		}
+		// every curve also as a NAMED curve (the OID table is a dependency of its own)
+		keys = append(keys, perso.AASpec{Type: "ecdsa", ParamID: id, Hash: ecHash(id), SigFormat: []string{"plain", "der"}[i%2], Named: true})
 	}
 	forms := []string{"bitflip", "truncated", "zero", "empty", "plus-n", "wrong-trailer"}
 	var cases []aaCase
